@@ -11,6 +11,7 @@ pub mod c04;
 pub mod c05;
 pub mod c09;
 pub mod c10;
+pub mod c11;
 pub mod c18;
 
 pub fn run(prop: &str, ctx: &mut Ctx) -> bool {
@@ -22,6 +23,7 @@ pub fn run(prop: &str, ctx: &mut Ctx) -> bool {
         "C05" => c05::run(ctx),
         "C09" => c09::run(ctx),
         "C10" => c10::run(ctx),
+        "C11" => c11::run(ctx),
         "C18" => c18::run(ctx),
         _ => return false,
     }
@@ -37,6 +39,7 @@ pub fn replay(prop: &str, case: &Value) -> Option<Vec<Failure>> {
         "C05" => c05::replay(case),
         "C09" => c09::replay(case),
         "C10" => c10::replay(case),
+        "C11" => c11::replay(case),
         "C18" => c18::replay(case),
         _ => return None,
     })
